@@ -242,6 +242,14 @@ def _index_nested(d, ix):
     return _index_nested(d[i], rest)
 
 
+NUMPY_SCALAR_TYPES = frozenset(
+    ["integer", "signedinteger", "unsignedinteger", "floating", "number",
+     "generic", "bool_", "inexact", "complexfloating", "intp", "uintp",
+     "int_", "float_", "complex_", "double", "single", "longlong"]
+    + [f"{k}{b}" for k in ("int", "uint") for b in (8, 16, 32, 64)]
+    + ["float16", "float32", "float64", "complex64", "complex128"])
+
+
 class SymArr:
     """Symbolic array: indexing with constant integers yields the symbol
     ``name[i,j]``; trailing point/cell axes are not materialised."""
@@ -1417,6 +1425,14 @@ class Interp:
                     return isinstance(o, int)
                 if t.name in ("numbers.Number", "numbers.Real"):
                     return isinstance(o, (int, float))
+                return False
+            if isinstance(t, ModRef) and t.name.startswith("numpy.") and \
+                    t.name[6:] in NUMPY_SCALAR_TYPES and (
+                    getattr(o, "skv_isarray", False)
+                    or isinstance(o, (Obj, PyFunc, Arr, SymArr, StoreArr,
+                                      Opaque))
+                    or callable(getattr(o, "skv_call", None))):
+                # arrays, objects and callables are no NumPy scalars
                 return False
             if isinstance(t, ModRef) and t.name == "numpy.ndarray":
                 # a run-time ndarray is exactly a value that depends on the
